@@ -439,6 +439,31 @@ def cmd_check(prop, tier):
             if okc == 2:
                 v = cand
                 break
+        if v is None and hasattr(mod, 'harden'):
+            # erratic behaviour (typically silent memory corruption): repeat the candidates on the ASan build, where
+            # the first bad access is reported deterministically; any violation of THIS property found there is used
+            try:
+                if 'asan' not in bins:
+                    bins.update(build_variants(['asan']))
+                for cand in vs[:4]:
+                    hs = mod.harden(cand['spec'])
+                    seen = []
+                    for _ in range(2):
+                        ws = sim.WorkerSet(bins, tag='gate')
+                        try:
+                            _, VV = execute(mod, hs, ws)
+                        finally:
+                            ws.close()
+                        seen.append(sorted(set(x['sig'] for x in VV if x['prop'] == prop)))
+                    if seen[0] and seen[0] == seen[1]:
+                        sig2 = seen[0][0]
+                        _, VV = execute(mod, hs, sim.WorkerSet(bins, tag='gate'))
+                        v = dict([x for x in VV if x['prop'] == prop and x['sig'] == sig2][0]); v['job'] = cand['job']; v['spec'] = hs
+                        print('  candidate %s is erratic on the plain build; on the ASan build it is deterministic as %s' % (sig, sig2))
+                        sig = sig2
+                        break
+            except SystemExit:
+                pass
         if v is None:
             print('UNCONFIRMED candidate %s did not reproduce twice in fresh processes (job, times reproduced): %s' % (sig, tried))
             unconfirmed.append(sig)
